@@ -234,6 +234,20 @@ def run(M, c):
                 got = repr(e)
             M.check("operators", ok, f"C20/operator{name}:{oname}", "Time +/- Duration/Interval wrong (below a day: exact; with a day component: TypeError)",
                     t=str(t), operand=repr(d_), got=got)
+    # two zone-aware Times that denote the same instant in different fixed offsets (equal for the standard library) but are
+    # different times of day: diff() is about the times of day
+    if c["t"] % 7 == 0:
+        offm = (c["td"] % 23 - 11) * 60 + (30 if c["td"] % 2 else 0)
+        if offm:
+            ta1 = T(t.hour, t.minute, t.second, t.microsecond, tzinfo=dt.timezone.utc)
+            w2 = (c["t"] + offm * 60 * US) % DAY
+            if 0 <= c["t"] + offm * 60 * US < DAY:
+                ta2 = T(w2 // US // 3600, w2 // US // 60 % 60, w2 // US % 60, w2 % US, tzinfo=dt.timezone(dt.timedelta(minutes=offm)))
+                for ab in (True, False):
+                    try:
+                        dd = ta1.diff(ta2, ab)                 # contract judges against the fields
+                    except Exception as ex:  # noqa: BLE001
+                        M.check("operators", False, f"C20/aware-diff:raised-{type(ex).__name__}", "Time.diff between aware Times raised", t1=str(ta1), t2=str(ta2))
     # diff / t2 - t1 / closest / farthest (contracts judge diff, closest, farthest)
     t2, t3 = _mk(M, c["t2"]), _mk(M, c["t3"])
     if (c["t2"] - c["t"]) % US:
